@@ -187,6 +187,12 @@ impl PutQuery {
     }
 
     fn most_common_error(&self) -> Option<(u8, PutError)> {
+        // Concurrency errors are only meaningful for mutable items, callers of other
+        // put requests treat them as unreachable.
+        if !matches!(self.request, PutRequestSpecific::PutMutable(_)) {
+            return None;
+        }
+
         self.errors
             .first()
             .and_then(|(count, error)| match error.code {
